@@ -25,6 +25,8 @@ type innovSite struct {
 	storeCall ssa.CallInstruction
 	recCtor   *ssa.Call
 	atTm      map[*ssa.BasicBlock]*Termer
+	stable    map[*types.Var]bool // c03FieldStable per field, see sameRead
+	sums      *Summaries
 }
 
 // tmAt: terms as seen from block b (a matched record handed out of a lookup as `rec, found` is the record
@@ -594,6 +596,7 @@ func c03Core(p *Prog, r *Run, sums *Summaries) {
 	r.Rule("C03.1", "number provenance: fresh numbers and node ids come from the issuing calls, reused ones from the matched record (gene 1 <- InnovationNum, gene 2 <- InnovationNum2, node <- NewNodeId)", func() {
 		for _, x := range [][2]string{{"mutateAddLink", "link"}, {"mutateConnectSensors", "link"}, {"mutateAddNode", "node"}} {
 			s := r.innovSiteOf(x[0], x[1])
+			s.sums = sums
 			sites = append(sites, s)
 			wantN := 1
 			if s.kind == "node" {
@@ -688,14 +691,42 @@ func c03Core(p *Prog, r *Run, sums *Summaries) {
 			}
 			wantTypeVal := p.Const(PkgG, wantType).Val().ExactString()
 			var extra []string
+			// ... and when the scan hands out the position of the matched record (`idx = i; break` ... `if idx >= 0 { list[idx] }`),
+			// what held for list[i] on the way out holds for the record the gene is built from (see indexMatch)
+			ixConds, ixRecs, ixExits := s.indexMatch(p, gc.call.Block())
+			type keyCond struct {
+				g    Guard
+				recs map[ssa.Value]bool // nil: the record copy the gene reads (any copy of an element of the scanned list)
+			}
+			var kcs []keyCond
 			for _, g := range conds {
+				kcs = append(kcs, keyCond{g, nil})
+			}
+			for _, g := range loopGuardsOnly(ixConds, s.innLoop) {
+				kcs = append(kcs, keyCond{g, ixRecs})
+			}
+			for _, kc := range kcs {
+				g := kc.g
 				if g.At == s.innLoop.Header {
 					continue
 				}
 				// boolean record field tested directly
 				if s.kind == "link" {
+					bases := []ssa.Value{s.innAlloc}
+					if kc.recs != nil {
+						bases = bases[:0]
+						for b := range kc.recs {
+							bases = append(bases, b)
+						}
+					}
 					for _, want := range []bool{true, false} {
-						if boolFieldCond(s.tm, g, s.innAlloc, want, "IsRecurrent") {
+						hit := false
+						for _, b := range bases {
+							if boolFieldCond(s.tm, g, b, want, "IsRecurrent") {
+								hit = true
+							}
+						}
+						if hit {
 							if k, ok := recV.(*ssa.Const); ok && k.Value != nil && constant.BoolVal(k.Value) == want {
 								got["IsRecurrent"] = true
 							}
@@ -707,8 +738,8 @@ func c03Core(p *Prog, r *Run, sums *Summaries) {
 					continue
 				}
 				for _, pr := range [][2]*Term{{a, b}, {b, a}} {
-					f, _, isRec := recordField(pr[0])
-					if !isRec {
+					f, rb, isRec := recordField(pr[0])
+					if !isRec || (kc.recs != nil && !kc.recs[rb]) {
 						continue
 					}
 					o := pr[1]
@@ -718,11 +749,11 @@ func c03Core(p *Prog, r *Run, sums *Summaries) {
 							got[f] = true
 						}
 					case "InNodeId":
-						if inV != nil && fieldChainOnWeb(o, inV, "Id") {
+						if inV != nil && s.chainOn(p, o, inV, "Id") {
 							got[f] = true
 						}
 					case "OutNodeId":
-						if outV != nil && fieldChainOnWeb(o, outV, "Id") {
+						if outV != nil && s.chainOn(p, o, outV, "Id") {
 							got[f] = true
 						}
 					case "IsRecurrent":
@@ -773,6 +804,12 @@ func c03Core(p *Prog, r *Run, sums *Summaries) {
 										viaFlag = true
 									}
 								}
+							}
+						}
+						// leaving with the position of the matched record handed out is leaving through the match too
+						for _, e := range ixExits {
+							if e[0] == b && e[1] == sx {
+								viaFlag = true
 							}
 						}
 						if !viaFlag {
@@ -836,6 +873,11 @@ func c03Core(p *Prog, r *Run, sums *Summaries) {
 			}
 			for i, q := range s.reuse {
 				w := c03PathAfter(p, s.fn, q.call, Guards(q.call.Block()), fresh, issues, nextAttempt)
+				if w == nil {
+					// the match may be established before the gene is built (the scan hands out the record's position):
+					// from there on nothing is issued or stored either
+					w = s.c03MatchExitIssues(p, q.call.Block(), fresh, issues, nextAttempt)
+				}
 				cn := name + ".novel.unmatched-only"
 				if i > 0 {
 					cn += fmt.Sprintf("#%d", i+1)
@@ -891,7 +933,7 @@ func c03Core(p *Prog, r *Run, sums *Summaries) {
 			r.Check(tt != nil && tt.Op == "const" && tt.Name == p.Const(PkgG, wantType).Val().ExactString(), name+".record.kind", p.Pos(s.recCtor.Pos()), "record kind "+wantType, fmt.Sprintf("the record's kind is %v, expected %s", tt, wantType))
 			_, it := val("InNodeId")
 			_, ot := val("OutNodeId")
-			r.Check(it != nil && fieldChainOnWeb(it, in1, "Id") && ot != nil && fieldChainOnWeb(ot, out1, "Id"), name+".record.nodes", p.Pos(s.recCtor.Pos()), "record holds the ids of the nodes the gene joins",
+			r.Check(it != nil && s.chainOn(p, it, in1, "Id") && ot != nil && s.chainOn(p, ot, out1, "Id"), name+".record.nodes", p.Pos(s.recCtor.Pos()), "record holds the ids of the nodes the gene joins",
 				fmt.Sprintf("the stored record has InNodeId=%v OutNodeId=%v, which are not the ids of the in and out node of the created gene", it, ot))
 			nv, _ := val("InnovationNum")
 			r.Check(nv != nil && nv == g1.args[5], name+".record.number", p.Pos(s.recCtor.Pos()), "record holds the number given to the gene", "the stored record does not hold the innovation number that the new gene received")
